@@ -79,17 +79,17 @@ class Explicit(Selector):
         self._project: typing.Union[str, 'asset.Project.Key'] = project
         self._release: typing.Union[str, 'asset.Release.Key'] = release
         self._generation: typing.Union[str, int, 'asset.Generation.Key'] = generation
-        self._instance: typing.Optional['asset.Instance'] = None
+        self._instances: dict['asset.Directory', 'asset.Instance'] = {}
 
     def select(self, registry: 'asset.Directory', context: typing.Any, stats: 'runtime.Stats') -> 'asset.Instance':
-        if not self._instance:
-            self._instance = assetmod.Instance(
+        if registry not in self._instances:
+            self._instances[registry] = assetmod.Instance(
                 registry=registry,
                 project=self._project,
                 release=self._release,
                 generation=self._generation,
             )
-        return self._instance
+        return self._instances[registry]
 
 
 class Latest(Selector):
